@@ -8,7 +8,6 @@ import (
 	"strings"
 )
 
-
 // CollectRaces parses the race detector logs written by workers of a Race check
 // (GORACE=log_path=<root>/replays/race-<ID>), de-duplicates reports by the pair of
 // line-stripped stacks and reports every report that has a d2 frame as a violation.
